@@ -441,8 +441,14 @@ class ExprMixin:
         if idx.op == "Const" and isinstance(idx.attr, str):
             key = (base_id.id, "[%s]" % idx.attr)
             memo = st.heap.get(key)
-            if memo is not None and memo.args and memo.args[0] is base:
-                return memo
+            if memo is not None and memo.op == "Subscript" and memo.args:
+                v = base
+                guard = 0
+                while v is not memo.args[0] and v.op == "Scatter" and v.attr == "via-view" and guard < 1000:
+                    v = v.args[0]
+                    guard += 1
+                if v is memo.args[0]:
+                    return memo
             n = self.mk("Subscript", (base, idx), None, site)
             n.extra = {"view_of": base_id}
             st.heap[key] = n
